@@ -141,7 +141,9 @@ Definition commit_status_old := commit_status_gen false false.
 Definition commit_status_nofallback_old := commit_status_gen true false.
 
 (* ------------------------------------------------------------------ scripted environment (harness) *)
-(* user write kinds: 0 put | 1 del | 2 reins | 3 stat (guarded) | 4 statx | 5 ref *)
+(* user write kinds: 0 put | 1 del | 2 reins | 3 stat (guarded) | 4 statx | 5 ref | 6 pend.
+   The object's status may be a plain reconciler.Status or a reconciler.StatusSet entry read through
+   StatusSet.Get(name): both are a (kind, id) pair; NewStatusSet()/Pending() give a fresh id. *)
 Record call := mkCall {
   cl_t : N; cl_op : N;            (* 0 U | 1 D | 2 UB | 3 DB | 4 Prune *)
   cl_pk : N; cl_ver : N; cl_rev : N;
@@ -198,6 +200,13 @@ Definition w_ref (e : env) (k : N) : env :=
     end
   | None => e
   end.
+(* harness doWrite("pend"): the user re-marks the object pending without changing the payload
+   (Status = StatusPending() / Statuses = Statuses.Pending()) *)
+Definition w_pend (e : env) (k : N) : env :=
+  match t_live (e_tab e) k with
+  | Some (o, _) => let (t, id) := t_fresh_id (e_tab e) in add_urev (set_tab e (t_insert t (with_status o Pending id)))
+  | None => e
+  end.
 Definition do_write (e : env) (kind k : N) : env :=
   match kind with
   | 0 => w_put e k
@@ -205,7 +214,8 @@ Definition do_write (e : env) (kind k : N) : env :=
   | 2 => w_put (w_del e k) k
   | 3 => w_stat true e k
   | 4 => w_stat false e k
-  | _ => w_ref e k
+  | 5 => w_ref e k
+  | _ => w_pend e k
   end.
 
 Fixpoint mem_pair (a b : N) (l : list (N * N)) : bool :=
